@@ -1,2 +1,182 @@
-//! harnesses mounted into the crate (see DESIGN.md 3.1)
+//! C14: doorkeeper Bloom filter. Child of `crate::bbloom`: states are built by struct literal.
 #![allow(dead_code, unused_imports)]
+use super::*;
+use crate::verif_nd::{self as nd, harness, vassert, vcover};
+
+/// arbitrary filter of 2^exp bits (exp >= 6), arbitrary contents, given number of probes
+pub(crate) fn any_bloom(exp: u64, set_locs: u64) -> Bloom {
+    let words = 1usize << (exp - 6);
+    let mut v = Vec::with_capacity(words);
+    let mut i = 0;
+    while i < words {
+        v.push(nd::any_u64());
+        i += 1;
+    }
+    let en = nd::any_u64();
+    nd::assume(en < (1 << 60));
+    Bloom {
+        bitset: v,
+        elem_num: en,
+        size_exp: exp,
+        size: (1u64 << exp) - 1,
+        set_locs,
+        shift: 64 - exp,
+    }
+}
+
+pub(crate) fn empty_bloom(exp: u64, set_locs: u64) -> Bloom {
+    let words = 1usize << (exp - 6);
+    Bloom {
+        bitset: vec![0; words],
+        elem_num: 0,
+        size_exp: exp,
+        size: (1u64 << exp) - 1,
+        set_locs,
+        shift: 64 - exp,
+    }
+}
+
+/// reference: bit `idx` of the bitset seen as little-endian words
+fn ref_bit(words: &[u64], idx: usize) -> bool {
+    (words[idx >> 6] >> (idx & 63)) & 1 == 1
+}
+
+/// Every one of the m bits is individually addressable: `set(i)` turns on exactly bit i.
+/// (Structural premise of the false-positive bound: the filter really has m bits.)
+fn bits_addressable<const EXP: u64>() {
+    let mut b = any_bloom(EXP, 1);
+    let m = 1usize << EXP;
+    let i = nd::any_usize();
+    let j = nd::any_usize();
+    nd::assume(i < m && j < m);
+    let bi = b.is_set(i);
+    let bj = b.is_set(j);
+    vassert!(bi == ref_bit(&b.bitset, i), "is_set(i) reads bit i of the bitset");
+    b.set(i);
+    vassert!(b.is_set(i), "set(i) makes is_set(i) true");
+    vassert!(b.is_set(j) == (bj || j == i), "set(i) changes no other bit: every one of the m bits is individually addressable");
+    vcover!(i >= 64 && j == i - 64 && !bj, "bits 64 apart");
+    vcover!(i < 64 && j >= 448, "first and last word");
+}
+
+harness! {
+    [kani::unwind(10)]
+    fn c14_bits_addressable_512() {
+        bits_addressable::<9>();
+    }
+}
+
+/// Membership: no false negatives, monotone until reset, reset/clear empty the filter.
+fn membership<const EXP: u64>() {
+    let k = nd::any_u64_in(1, 8);
+    let mut b = any_bloom(EXP, k);
+    let h = nd::any_u64();
+    let g = nd::any_u64();
+    let cg = b.contains(g);
+    let ch = b.contains(h);
+    let op = nd::any_u8_in(0, 2);
+    if op == 0 {
+        b.add(h);
+        vassert!(b.contains(h), "a hash that was added is reported present (no false negative)");
+        vassert!(!cg || b.contains(g), "adding never removes another hash (bits are only set)");
+        vcover!(!ch, "h was absent before");
+        vcover!(!cg && b.contains(g) && g != h, "false positive created by the add");
+    } else if op == 1 {
+        let added = b.contains_or_add(h);
+        vassert!(added == !ch, "contains_or_add returns true iff the hash was absent");
+        vassert!(b.contains(h), "contains_or_add leaves the hash present");
+        vassert!(!cg || b.contains(g), "contains_or_add never removes another hash");
+        vcover!(added, "contains_or_add added");
+        vcover!(!added, "contains_or_add found it");
+    } else {
+        if nd::any_bool() {
+            b.reset();
+        } else {
+            b.clear();
+        }
+        vassert!(!b.contains(g), "reset/clear empties the filter completely");
+        let mut w = 0;
+        while w < b.bitset.len() {
+            vassert!(b.bitset[w] == 0, "reset/clear zeroes every word");
+            w += 1;
+        }
+        vcover!(cg, "g was present before the reset");
+    }
+    vassert!(b.bitset.len() == 1usize << (EXP - 6), "bitset length unchanged");
+}
+
+harness! {
+    [kani::unwind(10)]
+    fn c14_membership_512() {
+        membership::<9>();
+    }
+}
+
+harness! {
+    [kani::unwind(10)]
+    fn c14_membership_64() {
+        membership::<6>();
+    }
+}
+
+harness! {
+    [kani::unwind(10)]
+    fn c14_membership_128() {
+        membership::<7>();
+    }
+}
+
+/// `add(hash)` sets exactly the bits (h + i*l) & size for i < set_locs and nothing else.
+fn add_sets_exactly<const EXP: u64>() {
+    let k = nd::any_u64_in(1, 8);
+    let mut b = any_bloom(EXP, k);
+    let hash = nd::any_u64();
+    let probe = nd::any_usize();
+    nd::assume(probe < (1usize << EXP));
+    let before = b.is_set(probe);
+    let h = hash >> b.shift;
+    let l = (hash << b.shift) >> b.shift;
+    let mut hit = false;
+    let mut i = 0;
+    while i < k {
+        if ((h + i * l) & b.size) as usize == probe {
+            hit = true;
+        }
+        i += 1;
+    }
+    b.add(hash);
+    vassert!(b.is_set(probe) == (before || hit), "add sets exactly the prescribed <= set_locs positions (h + i*l) & size");
+    vcover!(hit && !before && probe >= 64, "a probe position beyond the first word is set");
+    vcover!(!hit && !before, "an untouched position stays clear");
+}
+
+harness! {
+    [kani::unwind(10)]
+    fn c14_add_sets_exactly_512() {
+        add_sets_exactly::<9>();
+    }
+}
+
+/// sizing: `get_size(n)` is the smallest power of two >= max(n, 512) with its exponent; the integer
+/// path of `Bloom::new` (ratio >= 1 means "number of probes") builds a consistent filter.
+fn sizing() {
+    let n = nd::any_u64_in(0, 1 << 16);
+    let s = get_size(n);
+    vassert!(s.size.is_power_of_two() && s.size == 1u64 << s.exp, "size is 2^exp");
+    vassert!(s.size >= n && s.size >= 512, "size >= max(n, 512)");
+    vassert!(s.size == 512 || s.size / 2 < n, "size is the smallest such power of two");
+    vcover!(n == 513, "n just above 512");
+    vcover!(n == 65536, "n == 2^16");
+    let k = nd::any_u64_in(1, 8);
+    let b = Bloom::new(n as usize, k as f64);
+    vassert!(b.set_locs == k, "integer ratio is the number of probes");
+    vassert!(b.size + 1 == s.size && b.size_exp == s.exp && b.shift == 64 - s.exp, "filter geometry matches get_size");
+    vassert!(b.bitset.len() as u64 * 64 == b.size + 1, "the bitset has exactly size+1 bits");
+}
+
+harness! {
+    [kani::unwind(19)]
+    fn c14_sizing() {
+        sizing();
+    }
+}
